@@ -80,6 +80,10 @@ class RefInterp:
         self.max_exec = max_exec
         self.executions = 0
         self.resource_lookup = None  # key -> bytes or None
+        # "each action receives the previous result": by value.  The value and the variables are copied between steps, so
+        # that a command mutating its input in place (which may be the very object a variable holds) does not act at a
+        # distance in the model either.
+        self.isolate = True
 
     # -- public ---------------------------------------------------------------
     def run(self, query, input_value=None, extra=None, has_input=False):
